@@ -90,6 +90,9 @@ func main() {
 		if a[0] == "clocks" {
 			return sourceClocks()
 		}
+		if a[0] == "exported" {
+			return exportedFields()
+		}
 		if a[0] == "observed" { // self-check: fields written by the entry points (census) minus fields the dumps print
 			obs := map[string]bool{}
 			for _, f := range tables.ObservedFields {
@@ -175,6 +178,21 @@ func main() {
 	r.Do("src", "consts")
 	r.Do("src", "clocks")
 	r.Do("src", "observed")
+	r.Do("src", "exported")
+	// exported fields the application owns are inputs: Host.HuntStage set to hunt / redirected / normal (op H), then the
+	// duplicate-IP branch and the usual ops; and the conflict histories with stage writes sprinkled in
+	nHunt := 150
+	if r.Thorough() {
+		nHunt = 3000
+	}
+	for i := 0; i < nHunt; i++ {
+		ops := g.HuntStageHistory()
+		if i%3 == 2 {
+			ops = g.WithStages(g.ConflictHistory(6+rng.Intn(20)), 20)
+		}
+		r.Do("t5", append([]string{cfg, "0"}, ops...)...)
+		r.Stat("class.application-fields", 1)
+	}
 	// op pairs on one MAC in every order (SetDHCPv4IPOffer x DHCPv4Update x frame x purge), client online / offline / unknown
 	for i := 0; i < 432; i += 1 + rng.Intn(2) {
 		ops := g.OfferPairHistory(i)
